@@ -100,8 +100,17 @@ def parse_contract(unit_text, fn):
         # return type: text between previous ';' or '}' or '*/' or newline-blank and the name
         pre = unit_text[:m.start()]
         cut = max(pre.rfind(";"), pre.rfind("}"), pre.rfind("*/"), pre.rfind("\n\n"))
-        ret = re.sub(r"^[/\s]*", "", pre[cut + 1:]).strip()
-        ret = re.sub(r"^\*/", "", ret).strip()
+        seg = re.sub(r"/\*.*?\*/", " ", pre[cut + 1:], flags=re.S)
+        lines, cont = [], False
+        for ln in seg.split("\n"):
+            if cont or ln.lstrip().startswith("#"):
+                cont = ln.rstrip().endswith("\\")
+                continue
+            if ln.lstrip().startswith("//"):
+                continue
+            lines.append(ln)
+        ret = " ".join(" ".join(lines).split()).strip()
+        ret = re.sub(r"^[*/\s]+", "", ret).strip()
         params = unit_text[po + 1:pc].strip()
         return ret, params, clauses
     return None
@@ -260,7 +269,10 @@ def native_build_run(ob, vals, outdir, repo=None):
         rc = q.returncode
     except subprocess.TimeoutExpired:
         out, rc = "native replay timed out (120 s)", 124
-    failed = rc not in (0, 3) or "H4V-REPLAY FAILED" in out
+    # a native failure counts only if it is a contract clause evaluated false, or a sanitizer
+    # report whose stack goes through the real source tree (not a harness/linker artefact)
+    san = ("runtime error:" in out or "ERROR: AddressSanitizer" in out) and (str(repo) + "/") in out
+    failed = "H4V-REPLAY FAILED" in out or san
     infeasible = rc == 3
     try:
         exe.unlink()
